@@ -38,6 +38,18 @@ CHECKS = {
  "C03": ("bounded-exhaustive program-space enumeration (all permutations of serialize literals of distinct byte lengths, prefixes, all 16 styles, const_into_str) on compiled twin enums; seven observations per variant vs reference name",
          "For every enum of the bounded space seven string-producing paths (format!, as_ref, as_static, From by value/by reference, const into_str, ToString twin) and VariantNames::VARIANTS are compared with the reference canonical name for every variant; literals are chosen so that longest-by-bytes differs from last/first/alphabetical/longest-by-chars.",
          "trusted: rustc, vf-core R-name/R-case, generated constructor expressions; equal-length ties excluded (statement says 'longest')", "DESIGN.md §4 C03"),
+ "C08": ("bounded-exhaustive program-space enumeration (all disabled subsets x <=k deviations) on compiled derive output; four derive outputs compared with the reference list and with each other position by position",
+         "For every enum of the bounded space COUNT, iter(), iter().nth(i), VariantNames::VARIANTS and (field-less enums) VariantArray::VARIANTS are compared with the reference variant list, and for enums without disabled variants with each other position by position without a reference in the middle.",
+         "trusted: rustc, generated vidx() match, vf-core R-name/R-enabled", "DESIGN.md §4 C08"),
+ "C13": ("bounded-exhaustive program-space enumeration (kinds incl. 0..3 tuple fields, identifier shapes, disabled, generics) x every (value, generated method) pair on compiled derive output; method absence observed through fallback-trait probes",
+         "For every enum of the bounded space every constructed value is passed to every generated is_*/try_as_* method (by value, by reference, by mutable reference with a write-through read-back) and compared with the reference; the existence of a predicate per enabled variant and the absence for disabled variants is observed at run time through fallback traits.",
+         "trusted: rustc method resolution (inherent beats trait), derived Debug/Clone, generated constructors and probes, vf-core R-snake", "DESIGN.md §4 C13"),
+ "C14": ("bounded-exhaustive program-space enumeration (message/detail/doc-line sets in both doc forms/naming/disabled/layout) on compiled derive output; four getters per declared variant vs reference",
+         "For every enum of the bounded space every declared variant (disabled ones included) is constructed and its four EnumMessage getters are compared with the reference (detail falls back to message, one leading space stripped per doc line, single line verbatim, several lines newline-terminated, all None when disabled, serializations always present).",
+         "trusted: rustc doc-comment desugaring, generated constructors, vf-core R-msg/R-detail/R-doc/R-spellings", "DESIGN.md §4 C14"),
+ "C15": ("bounded-exhaustive program-space enumeration (props groups with keys shared across variants and types) x query-key closure (declared keys, case variants, prefixes, all strings <= 2) x three getters x every variant, on compiled derive output vs reference map",
+         "For every enum of the bounded space every declared variant is queried with every key of the query closure through get_str, get_int and get_bool; presence and absence (other variant, other type, disabled) are compared with the reference property table.",
+         "trusted: rustc, generated constructors, vf-core R-props", "DESIGN.md §4 C15"),
 }
 PENDING = {}
 
